@@ -11,7 +11,7 @@ import math
 import numpy as np
 from hypothesis import strategies as st
 
-from . import gen, mdeck as md
+from . import gen, mdeck as md, mgeom
 
 DENSITY_FAMILIES = [
     # (numeric value, spellings that differ only in trailing zeros / Fortran
@@ -366,6 +366,10 @@ class Builder:
             normals = normals / np.linalg.norm(normals, axis=1, keepdims=True)
             normals = normals[list(d(st.permutations([0, 1, 2])))]
         via_facets = (not skew) and d(st.integers(0, 4)) == 0
+        via_body = (not skew) and (not via_facets) and ndim == 3 and \
+            d(st.integers(0, 2)) == 0
+        if via_body:
+            return self._body_lattice_universe(u, scale, force)
         rpp = [-50.0, 50.0, -50.0, 50.0, -50.0, 50.0]
         rpp_id = None
         if via_facets:
@@ -435,6 +439,10 @@ class Builder:
                 if s_['id'] == rpp_id:
                     s_['params'] = [float(v) for v in rpp]
         expr = leaves[0] if len(leaves) == 1 else md.AND(*leaves)
+        return self._finish_lattice(u, expr, pitches, ndim, force)
+
+    def _finish_lattice(self, u, expr, pitches, ndim, force):
+        d = self.draw
         # sub-universes
         n_sub = d(st.integers(1, 2))
         subs = [self.universe(-1, min(pitches) * 0.9, allow_lattice=False)
@@ -499,6 +507,32 @@ class Builder:
                     trcl=trcl, lat=1)
         self.deck['cells'].append(c)
         return c
+
+    def _body_lattice_universe(self, u, scale, force):
+        """LAT=1 cell bounded by one RPP or BOX macrobody (-b): the body
+        stands for its six facets in facet order, so the three indices
+        increase along +x, +y, +z (RPP) or along a1, a2, a3 (BOX)."""
+        d = self.draw
+        pitches = [d(gen.length(0.25 * scale, 0.6 * scale)) for _ in range(3)]
+        org = [d(gen.coord(0.2 * scale)) for _ in range(3)]
+        if d(st.booleans()):
+            params = []
+            for a, p in zip(org, pitches):
+                params += [a, a + p]
+            bid = self.add_surf('rpp', params)
+            self.labels.add('lat:rpp-body')
+        else:
+            _cls, R = d(gen.rotation(('generic', 'axis', 'identity', 'perm',
+                                      'flip')))
+            R = np.array(R).reshape(3, 3)
+            if np.linalg.det(R) < 0:
+                R = -R
+            params = [float(v) for v in org]
+            for q in range(3):
+                params += [float(v) for v in pitches[q] * R[q]]
+            bid = self.add_surf('box', params)
+            self.labels.add('lat:box-body')
+        return self._finish_lattice(u, md.S(-bid), pitches, 3, force)
 
     # -- level 0 -----------------------------------------------------------
     def world(self, depth):
@@ -606,6 +640,66 @@ def periodic_case(draw, tier='quick'):
             'box': W * 1.15, 'pseed': draw(st.integers(0, 2 ** 31 - 1))}
 
 
+@st.composite
+def twin_fill_case(draw, tier='quick', mirrors=False):
+    """One universe placed in 2-3 level-0 containers by fill transformations
+    that share their displacement and are related matrix-wise (equal, turned
+    about one axis, or - with ``mirrors`` - composed with a reflection
+    diag(+-1, +-1, +-1)).  Reflections are not rigid motions: decks with the
+    label ``mirror`` are only used by reference-free checks (C13, C08, C18)."""
+    b = Builder(draw, tier, {'lattice': False})
+    d = draw
+    W = 5.0
+    world = b.add_surf('so', [W])
+    u = b.universe(d(st.sampled_from([0, 0, 1])), 2.4, allow_lattice=False)
+    n = d(st.integers(2, 3))
+    cuts = sorted(d(st.sampled_from([(-1.0,), (0.5,), (-1.5, 1.0),
+                                     (-0.5, 1.5)])))[:n - 1]
+    if len(cuts) < n - 1:
+        n = len(cuts) + 1
+    planes = [b.add_surf('px', [a]) for a in cuts]
+    o = [d(gen.coord(1.0)) for _ in range(3)]
+    cls0, R0 = d(gen.rotation(('identity', 'identity', 'axis', 'perm',
+                               'generic')))
+    R0 = np.array(R0).reshape(3, 3)
+    b.labels.add('twin-fill')
+    for i in range(n):
+        terms = [md.S(-world)]
+        if i > 0:
+            terms.append(md.S(planes[i - 1]))
+        if i < len(planes):
+            terms.append(md.S(-planes[i]))
+        expr = md.AND(*terms) if len(terms) > 1 else terms[0]
+        if mirrors:
+            D = np.diag([float(d(st.sampled_from([1, 1, -1])))
+                         for _ in range(3)])
+        else:
+            D = np.eye(3)
+        how = d(st.sampled_from(['same', 'same', 'turned']))
+        R = R0
+        if how == 'turned':
+            _c, Rt = d(gen.rotation(('axis', 'small')))
+            R = np.array(Rt).reshape(3, 3) @ R0
+            b.labels.add('twin-fill:turned')
+        M = R @ D if d(st.booleans()) else D @ R
+        if np.linalg.det(M) < 0:
+            b.labels.add('mirror')
+        spec = md.trspec(o, [float(v) for v in M.reshape(9)], n_entries=12)
+        b.deck['cells'].append(md.cell(b.new_cid(), 0, None, expr,
+                                       imp={'n': 1},
+                                       fill={'u': u, 'tr': {'inline': spec}}))
+    b.deck['cells'].append(md.cell(b.new_cid(), 0, None, md.S(world),
+                                   imp={'n': 0}))
+    if d(st.booleans()):
+        level0 = [c for c in b.deck['cells'] if not c.get('u')]
+        others = [c for c in b.deck['cells'] if c.get('u')]
+        level0.reverse()
+        b.deck['cells'] = level0 + others if d(st.booleans()) \
+            else others + level0
+    return {'deck': b.deck, 'labels': sorted(b.labels), 'tier': tier,
+            'box': W * 1.15, 'pseed': draw(st.integers(0, 2 ** 31 - 1))}
+
+
 # --------------------------------------------------------------------------
 # hexagonal lattices (LAT=2)
 # --------------------------------------------------------------------------
@@ -656,8 +750,9 @@ def hex_lattice_universe(b, u, scale, force=None):
     # (neighbouring elements share the caps) whatever the prism axis is; with
     # six planes and an oblique axis their component along the axis would be
     # conventional (DESIGN 4.3), so the axis is then kept orthogonal.
-    three_d = d(st.booleans())
-    oblique = three_d and d(st.integers(0, 2)) == 0
+    via_body = (not force.get('no_body')) and d(st.integers(0, 3)) == 0
+    three_d = via_body or d(st.booleans())
+    oblique = three_d and (not via_body) and d(st.integers(0, 2)) == 0
     w = e3.copy()
     if oblique:
         w = e3 + d(st.sampled_from([0.2, -0.3])) * e1 \
@@ -666,6 +761,8 @@ def hex_lattice_universe(b, u, scale, force=None):
         b.labels.add('hex:oblique-axis')
     centre = np.array([d(gen.coord(0.3)) for _ in range(3)])
     trans = [ring[k] + ring[(k + 1) % 6] for k in range(6)]
+    if via_body:
+        return _rhp_hex_cell(b, u, force, regular, ring, e3, centre)
     # side planes, outward normals
     planes = []
     for k in range(6):
@@ -716,7 +813,12 @@ def hex_lattice_universe(b, u, scale, force=None):
         bot = b.add_surf('p', [float(t) for t in m] + [d_bot])
         leaves += [md.S(-top), md.S(bot)]
         a3 = w * (h / float(m @ w))
-    expr = md.AND(*leaves)
+    return _finish_hex(b, u, force, md.AND(*leaves), three_d, a1, a2, a3, w,
+                       centre)
+
+
+def _finish_hex(b, u, force, expr, three_d, a1, a2, a3, w, centre):
+    d = b.draw
     ndim = 3 if three_d else 2
     size_scale = float(min(np.linalg.norm(a1), np.linalg.norm(a2))) * 0.45
     n_sub = d(st.integers(1, 2))
@@ -763,6 +865,48 @@ def hex_lattice_universe(b, u, scale, force=None):
                 'centre': [float(t) for t in centre]}
     b.deck['cells'].append(c)
     return c
+
+
+def _rhp_hex_cell(b, u, force, regular, ring, e3, centre):
+    """LAT=2 cell bounded by one RHP / HEX macrobody (-b): the body stands
+    for its eight facets in facet order (+r, -r, +s, -s, +t, -t, top, base),
+    so a1 crosses the +r facet, a2 the +s facet and a3 the top."""
+    d = b.draw
+    h = d(gen.length(0.6, 1.5))
+    z0 = d(gen.coord(0.3))
+    base = centre + z0 * e3
+    mnem = d(st.sampled_from(['rhp', 'hex']))
+    trans = [ring[k] + ring[(k + 1) % 6] for k in range(6)]
+    feet = []
+    for k in range(6):
+        n = np.cross(ring[(k + 1) % 6] - ring[k], e3)
+        if n @ ring[k] < 0:
+            n = -n
+        n = n / np.linalg.norm(n)
+        feet.append(n * float(n @ ring[k]))
+    if regular and d(st.booleans()):
+        # nine entries: s and t are r turned by 60 and 120 degrees about h
+        k1 = d(st.integers(0, 5))
+        r1 = feet[k1]
+        r2 = mgeom._rot_about(r1, e3, math.pi / 3.)
+        k2 = min(range(6), key=lambda k: float(np.linalg.norm(feet[k] - r2)))
+        params = list(base) + list(h * e3) + list(r1)
+        b.labels.add('hex:rhp-9')
+    else:
+        k1 = d(st.integers(0, 5))
+        step = d(st.sampled_from([1, -1, 2, -2]))
+        k2 = (k1 + step) % 6
+        k3 = [k for k in range(6) if k % 3 not in (k1 % 3, k2 % 3)]
+        k3 = k3[d(st.integers(0, 1))]
+        params = list(base) + list(h * e3) + list(feet[k1]) + \
+            list(feet[k2]) + list(feet[k3])
+        b.labels.add('hex:rhp-15')
+        b.labels.add('hex:adjacent' if abs(step) == 1 else 'hex:next-adjacent')
+    bid = b.add_surf(mnem, [float(t) for t in params])
+    b.labels.add('hex:body')
+    b.labels.add('hex:3d')
+    return _finish_hex(b, u, force, md.S(-bid), True, trans[k1], trans[k2],
+                       h * e3, e3.copy(), base + 0.5 * h * e3)
 
 
 @st.composite
